@@ -1,6 +1,6 @@
 (* C09 — acknowledged changes survive power loss.  Statements only; proofs in
    theories/Crash_proofs.v, under the persistence model of Crash.v (see C08). *)
-From Whawty Require Import Bytes Record Store StoreTrace Crash Crash_proofs AckedDurable_proofs.
+From Whawty Require Import Bytes Names Record Store StoreTrace Crash Crash_proofs AckedDurable_proofs DurHist DurHist_proofs ModelHist ModelHist_proofs.
 Open Scope N_scope.
 
 (* on a disk whose base directory is quiescent every crash state shows
@@ -68,7 +68,7 @@ Print Assumptions C09_durability_checker_sound.
 (* the model's set-admin / remove programs sync the base directory *)
 Theorem C09_set_admin_events : forall d u adm s,
   p_set_admin None d u adm = (ROk, s) ->
-  events s = [] \/
+  events s = [EFsync LBaseDir] \/
   exists cur, user_exists d u = ExYes cur /\ cur <> adm /\
     events s = [ERename (LFile (u ++ ext_of cur)) (LFile (u ++ ext_of adm)); EFsync LBaseDir].
 Proof. exact set_admin_events. Qed.
@@ -115,3 +115,106 @@ Theorem C09_refuted_bare_unlink :
     crashed_file c (str "u.user") = Some (str "rec").
 Proof. exact bare_unlink_not_durable. Qed.
 Print Assumptions C09_refuted_bare_rename.
+
+(* ---- over histories, with failed operations in them (the quantifier's "any history ... fault
+   sequences") ----
+   A failed set-admin / remove / add / update may leave an entry change of the base directory
+   pending (renamed or unlinked, the directory fsync failed, the error was reported).  The
+   invariant DInv holds between the operations of ANY history whose steps have the two shapes the
+   store's operations have, and a name without pending entry change reads the same after every
+   crash.  The checker hist_ok (run on every observed history, Run/C09h) carries the dirty names
+   from step to step; when it accepts, every crash state after an acknowledged mutating
+   operation on user u shows under u's two names what running processes saw on return. *)
+Theorem C09_invariant_between_operations : forall d s,
+  DInv d -> step_shape_ok s = true -> DInv (exec_events d (h_evs s)).
+Proof. exact step_preserves. Qed.
+Print Assumptions C09_invariant_between_operations.
+
+Theorem C09_clean_names_survive : forall d c g,
+  DInv d -> crash_of d c -> ~ In g (pend_names (base_pend d)) -> crashed_file c g = vol_file d g.
+Proof. exact clean_names_survive. Qed.
+Print Assumptions C09_clean_names_survive.
+
+Theorem C09_history_acked_durable : forall d0 h s u c,
+  base_quiescent d0 -> tmp_inj d0 ->
+  hist_ok (h ++ [s]) [] = true -> h_ack s = Some u ->
+  crash_of (exec_events d0 (hist_events (h ++ [s]))) c ->
+  crashed_file c (u ++ ext_user) = vol_file (exec_events d0 (hist_events (h ++ [s]))) (u ++ ext_user) /\
+  crashed_file c (u ++ ext_admin) = vol_file (exec_events d0 (hist_events (h ++ [s]))) (u ++ ext_admin).
+Proof. exact history_acked_durable. Qed.
+Print Assumptions C09_history_acked_durable.
+
+Theorem C09_history_clean_names_durable : forall d0 h g c,
+  base_quiescent d0 -> tmp_inj d0 -> hist_ok h [] = true ->
+  bmem g (fold_left (fun dn s => dirty_names_after (h_evs s) dn) h []) = false ->
+  crash_of (exec_events d0 (hist_events h)) c ->
+  crashed_file c g = vol_file (exec_events d0 (hist_events h)) g.
+Proof. exact history_clean_names_durable. Qed.
+Print Assumptions C09_history_clean_names_durable.
+
+(* a complete add / update leaves nothing dirty, whatever was dirty before it *)
+Theorem C09_complete_cleans : forall f rv evs dn,
+  protocol_complete_ok f rv evs = true -> dirty_names_after evs dn = [].
+Proof. exact complete_cleans. Qed.
+Print Assumptions C09_complete_cleans.
+
+(* non-vacuity: a history with a failed first attempt is accepted when the retry syncs ... *)
+Example C09_history_example_accepted :
+  hist_ok [ {| h_shape := HDir; h_ack := None;
+               h_evs := [ERename (LFile (str "u.user")) (LFile (str "u.admin"))] |};
+            {| h_shape := HDir; h_ack := Some (str "u"); h_evs := [EFsync LBaseDir] |} ] [] = true.
+Proof. exact retry_history_with_sync_accepted. Qed.
+
+(* ... and the retry that acknowledges "already in that state" without a directory fsync is the
+   refutation witness of the defect D13 (set-admin before its repair): acknowledged, the running
+   view shows the new flag, a crash state does not *)
+Theorem C09_refuted_retry_without_sync :
+  exists d0 c,
+    base_quiescent d0 /\ tmp_inj d0 /\ vol_file d0 (str "u.user") = Some (str "rec") /\
+    let h := [ {| h_shape := HDir; h_ack := None;
+                  h_evs := [ERename (LFile (str "u.user")) (LFile (str "u.admin"))] |};
+               {| h_shape := HDir; h_ack := Some (str "u"); h_evs := [] |} ] in
+    vol_file (exec_events d0 (hist_events h)) (str "u.admin") = Some (str "rec") /\
+    crash_of (exec_events d0 (hist_events h)) c /\
+    crashed_file c (str "u.admin") = None.
+Proof. exact retry_without_sync_refuted. Qed.
+Print Assumptions C09_refuted_retry_without_sync.
+
+(* ---- the model's operations in ANY history, each under ANY optional fault ----
+   every step has the expected shape and acknowledges only with nothing dirty, so the checker
+   accepts every model history; with C09_history_acked_durable: whatever failed before, every
+   crash state after an acknowledged model operation on u shows under u's names what running
+   processes saw on return.  (p_set_admin is the repaired one: 5ef5850.) *)
+Theorem C09_model_histories_accepted : forall kdf c xs d dn,
+  hist_ok (mrun kdf c d xs) dn = true.
+Proof. exact model_histories_accepted. Qed.
+Print Assumptions C09_model_histories_accepted.
+
+Theorem C09_model_history_acked_durable : forall kdf c xs x d d0 u cr,
+  base_quiescent d0 -> tmp_inj d0 ->
+  h_ack (last (mrun kdf c d (xs ++ [x])) {| h_shape := HDir; h_ack := None; h_evs := [] |}) = Some u ->
+  crash_of (exec_events d0 (hist_events (mrun kdf c d (xs ++ [x])))) cr ->
+  crashed_file cr (u ++ ext_user) = vol_file (exec_events d0 (hist_events (mrun kdf c d (xs ++ [x])))) (u ++ ext_user) /\
+  crashed_file cr (u ++ ext_admin) = vol_file (exec_events d0 (hist_events (mrun kdf c d (xs ++ [x])))) (u ++ ext_admin).
+Proof. exact model_history_acked_durable. Qed.
+Print Assumptions C09_model_history_acked_durable.
+
+Theorem C09_acked_set_admin_clean : forall ft d u adm s dn,
+  p_set_admin ft d u adm = (ROk, s) -> dirty_names_after (events s) dn = [].
+Proof. exact acked_set_admin_clean. Qed.
+Theorem C09_acked_remove_clean : forall ft d u dn,
+  valid_name u = true -> p_remove_user_res ft d u = ROk ->
+  dirty_names_after (events (p_remove_user ft d u)) dn = [].
+Proof. exact acked_remove_clean. Qed.
+Print Assumptions C09_acked_set_admin_clean.
+
+(* non-vacuity: a concrete model history with a failed directory flush followed by the retry *)
+Example C09_model_history_example :
+  let d := [(str "alice.user", File (str "rec\n"))] in
+  let xs := [ (MSetAdmin (str "alice") true, Some {| f_kind := KFsync; f_occ := 0; f_errno := EIO |},
+               {| o_ts := 0%Z; o_salt := []; o_tmp := []; o_order := [] |});
+              (MSetAdmin (str "alice") true, None, {| o_ts := 0%Z; o_salt := []; o_tmp := []; o_order := [] |}) ] in
+  map h_ack (mrun (fun _ _ _ => None) {| params := []; default := 1 |} d xs) = [None; Some (str "alice")] /\
+  map h_evs (mrun (fun _ _ _ => None) {| params := []; default := 1 |} d xs)
+    = [[ERename (LFile (str "alice.user")) (LFile (str "alice.admin"))]; [EFsync LBaseDir]].
+Proof. vm_compute. split; reflexivity. Qed.
